@@ -272,6 +272,27 @@ var rHideKeep = &Rule{
 				return ok
 			}
 			ok := keeps(sd, func(v ssa.Value, d int) bool { return derivesFromField(v, f, d) }, 0)
+			// a rendering of the hidden error that is put among the safe details is the VERBOSE one: the per-layer walk
+			// above follows the single chain of causes only, so what the branches of a multi-cause error behind the
+			// barrier carry (keys, domains, safe arguments, stacks) is reachable only through %+v
+			sx.EachInstr(sd, func(in ssa.Instruction) {
+				call, isCall := in.(*ssa.Call)
+				if !isCall || redactName(sx.Callee(call)) != "Sprintf" || len(call.Call.Args) != 2 {
+					return
+				}
+				uses := false
+				for _, a := range varargs(call.Call.Args[1]) {
+					if derivesFromField(stripIface(a), f, 0) {
+						uses = true
+					}
+				}
+				if !uses {
+					return
+				}
+				format, isC := sx.ConstString(call.Call.Args[0])
+				c.Check(isC && strings.Contains(format, "%+v"), name+" rendered into SafeDetails()", call.Pos(), "with %+v (verbose: every layer and branch)",
+					"the hidden error is rendered into the safe details with a short verb: safe strings carried by the branches of a multi-cause error behind the barrier (and the detail of every layer) are no longer part of the barrier's safe details")
+			})
 			c.Check(ok, name+" in SafeDetails()", sd.Pos(), "GetSafeDetails(hidden chain) flows to the returned details, for every layer of the hidden chain", "SafeDetails() no longer folds the safe details of every layer of the hidden chain into its own")
 		}
 	},
